@@ -4,6 +4,8 @@ package props
 
 import (
 	"fmt"
+	"os"
+	"strconv"
 	"strings"
 	"testing"
 	"testing/synctest"
@@ -62,7 +64,7 @@ func runS1(t *testing.T, scn *s1Scn, prefix []int) (x explore.Exec) {
 		abort := make(chan struct{})
 		defer close(abort)
 		y.Conn.BeforeWrite = func() { verifsched.Point("sock-write") }
-		c.tick, c.maxTicks = time.Second, 6
+		c.tick, c.maxTicks = time.Second, 10 // hard cap; deliberate ticks are bounded by the DFS observation budget
 		c.isLoop = func(name string) bool {
 			return strings.Contains(name, "(*Operation).run") || strings.Contains(name, "(*Operation).Stop.")
 		}
@@ -82,8 +84,10 @@ func runS1(t *testing.T, scn *s1Scn, prefix []int) (x explore.Exec) {
 		c.stateKey = func() string {
 			return fmt.Sprintf("done=%v w=%d t=%d tid=%v", len(done), y.Conn.NumWrites(), c.ticks, tid != "")
 		}
+		var spawned []string
 		spawn := func(name string, f func()) {
 			want++
+			spawned = append(spawned, name)
 			go func() {
 				verifsched.Tag(name)
 				verifsched.Point("start")
@@ -97,7 +101,16 @@ func runS1(t *testing.T, scn *s1Scn, prefix []int) (x explore.Exec) {
 		if scn.Inbound != "" {
 			spawn("h:inbound", func() {
 				src := sim.UDP4(77, 1, 1, 1, 7711)
-				b := sim.Query("in", "ping", sim.M{"id": sim.IDStr(sim.InBucket(sim.Root, 0, 77))})
+				// The refresh target is a random ID of bucket 0 (crypto/rand, not ours to fix). Which
+				// of two bucket-0 nodes is closer to it, and therefore queried first, would differ
+				// between two runs of one schedule. When the scenario distinguishes the two queries
+				// (one of them is answered), the new node lives in bucket 3: a bucket-0 node is closer
+				// to every bucket-0 target than a node of any other bucket.
+				inBucket := 0
+				if scn.Reply {
+					inBucket = 3
+				}
+				b := sim.Query("in", "ping", sim.M{"id": sim.IDStr(sim.InBucket(sim.Root, inBucket, 77))})
 				if scn.Inbound == "hostile" {
 					b = []byte("d1:q13:announce_peer1:t2:aa1:y1:qe")
 				}
@@ -113,6 +126,7 @@ func runS1(t *testing.T, scn *s1Scn, prefix []int) (x explore.Exec) {
 		}
 		if scn.Reply {
 			want++
+			spawned = append(spawned, "h:reply")
 			go func() {
 				select {
 				case <-firstWrite:
@@ -150,7 +164,7 @@ func runS1(t *testing.T, scn *s1Scn, prefix []int) (x explore.Exec) {
 		}
 		if len(done) < want {
 			var missing []string
-			for _, n := range []string{"h:refresh", "h:inbound", "h:api", "h:reply", "h:close"} {
+			for _, n := range spawned {
 				if !done[n] {
 					missing = append(missing, n)
 				}
@@ -247,5 +261,29 @@ func init() {
 			}
 		}
 		return explore.Result{Viol: "HARNESS: unknown scenario " + name}
+	}
+}
+
+// TestDbgS1 explores one sync-tier scenario on its own (debugging aid): VERIF_DBG_SCN=<name>
+// VERIF_DBG_PB=<preemption bound>.
+func TestDbgS1(t *testing.T) {
+	name := os.Getenv("VERIF_DBG_SCN")
+	if name == "" {
+		t.Skip("VERIF_DBG_SCN not set")
+	}
+	pb, _ := strconv.Atoi(os.Getenv("VERIF_DBG_PB"))
+	w := explore.NewWorker("C01")
+	defer w.Finish()
+	for _, scn := range s1Scenarios() {
+		scn := scn
+		if scn.Name != name {
+			continue
+		}
+		unit := "sync;scn=" + scn.Name
+		w.BeginUnit(0, unit)
+		d := &explore.DFS{W: w, Unit: unit, Preempt: pb, Observe: 2, DetCheck: 1000000, Prune: true, MaxViol: 5, ShardTop: true,
+			Run: func(prefix []int) explore.Exec { return runS1(t, &scn, prefix) }}
+		d.Explore()
+		fmt.Printf("DBG %s: %d executions, %d states, %d pruned, %d violating, timedout=%v\n", unit, d.Executions, d.States, d.Pruned, d.Violating, d.TimedOut)
 	}
 }
